@@ -40,12 +40,49 @@ func main() {
 	if s := os.Getenv("VERIF_SEED"); s != "" {
 		seed, _ = strconv.Atoi(s)
 	}
+	if *prop == "ALL" {
+		os.Exit(runAll(*tier, *repo, *root, *goarch, seed))
+	}
 	rule, ok := rules.Registry[*prop]
 	if !ok {
 		fmt.Fprintf(os.Stderr, "unknown property %q\n", *prop)
 		os.Exit(2)
 	}
 	os.Exit(run(*prop, *tier, *repo, *root, *goarch, seed, rule))
+}
+
+// runAll decides every property with one load of the program (used to
+// evaluate seeded defects; the registered checks run one property per process).
+func runAll(tier, repo, root, goarch string, seed int) int {
+	ctx, err := core.Load(repo, goarch)
+	var ids []string
+	for id := range rules.Registry {
+		ids = append(ids, id)
+	}
+	sort.Strings(ids)
+	code := 0
+	for _, id := range ids {
+		r := core.NewReport(id, tier, root, seed)
+		if err != nil {
+			r.Fatalf("cannot load %s: %v", repo, err)
+			if r.Finish() != 0 {
+				code = 1
+			}
+			continue
+		}
+		func() {
+			defer func() {
+				if p := recover(); p != nil {
+					r.Fatalf("analyser panic: %v\n%s", p, debug.Stack())
+				}
+			}()
+			rules.Registry[id](ctx, r)
+		}()
+		if r.Finish() != 0 {
+			code = 1
+		}
+	}
+	return code
 }
 
 func flagSet(name string) bool {
